@@ -299,8 +299,10 @@ class FunctionTranslator:
                     self.fail(h, 'unknown exception class in handler')
                 hbody_nodes = h.body
                 reraises = False
-                if hbody_nodes and isinstance(hbody_nodes[-1], ast.Raise) and hbody_nodes[-1].exc is None:
-                    reraises = True
+                last = hbody_nodes[-1] if hbody_nodes else None
+                if isinstance(last, ast.Raise) and (last.exc is None or (
+                        h.name and isinstance(last.exc, ast.Name) and last.exc.id == h.name and last.cause is None)):
+                    reraises = True           # `raise` / `raise e` of the caught exception
                     hbody_nodes = hbody_nodes[:-1]
                 hb = self.block(hbody_nodes)
                 if reraises:
